@@ -67,7 +67,17 @@ func comparePos(want, got *gen.Node, path string, out *[]string) {
 		return
 	}
 	if want.Kind != got.Kind {
-		return // structure differs: C06's business
+		// a sign folded into a numeric literal: the literal starts at its (outermost) sign
+		if want.Kind == gen.Unary && (want.Op == "-" || want.Op == "+") && (got.Kind == gen.Int || got.Kind == gen.Float) {
+			inner := want
+			for inner.Kind == gen.Unary && (inner.Op == "-" || inner.Op == "+") && inner.X != nil {
+				inner = inner.X
+			}
+			if inner.Kind == gen.Int || inner.Kind == gen.Float {
+				cmpInt(path+"/SignedLiteral", "Start", want.P.Tok, got.P.Tok, out)
+			}
+		}
+		return // structure differs otherwise: C06's business
 	}
 	p := path + "/" + want.Kind.String()
 	w, g := want.P, got.P
@@ -80,6 +90,9 @@ func comparePos(want, got *gen.Node, path string, out *[]string) {
 	case gen.Attr:
 		cmpInt(p, "Start", w.Start, g.Start, out)
 	case gen.Index:
+		if want.X == nil {
+			cmpInt(p, "Start(dot)", w.Start, g.Start, out)
+		}
 		cmpInts(p, "LBracket", w.Ls, g.Ls, out)
 		cmpInts(p, "RBracket", w.Rs, g.Rs, out)
 	case gen.Unary, gen.Binary, gen.In, gen.Assign:
